@@ -134,6 +134,34 @@ SEEDS = {
               ['./api/rpc/', './api/'], ['-run', 'TestC19_ReadTokenNeverReachesAdmin|TestC19_ExtractedPermissionsAreStable', './api/rpc/', './libs/authtoken/']),
     "C10-3": ("C10/r2change1", "C10", [("demo/seed_c10_change1_test.go", "share/shwap/p2p/bitswap/seed_c10_change1_test.go")],
               ["./share/shwap/", "./share/availability/light/"], ["-run", "TestSeedC10", "./share/shwap/p2p/bitswap/"]),
+    "C13-5": ("C13/r3change1", "C13", [('demo/seed_c13_jobid_test.go', 'das/seed_c13_jobid_test.go')],
+              ['./das/'], ['-run', 'TestC13_CatchUpNotDoneWhileCatchupJobInFlight|TestC13_CatchupWorkersStayWithinConcurrencyLimit', './das/']),
+    "C12-5": ("C12/r3change1", "C12", [('demo/range_shifted_single_row_c12_test.go', 'share/shwap/range_shifted_single_row_c12_test.go')],
+              ['./share/shwap/', './share/eds/'], ['-run', 'TestC12RangeVerifyRejectsShiftedSingleRowRange', './share/shwap/']),
+    "C12-6": ("C12/r3change2", "C12", [('demo/commitment_proof_empty_c12_test.go', 'blob/commitment_proof_empty_c12_test.go')],
+              ['./blob/...'], ['-run', 'TestC12TrimmedCommitmentProofIsRejected', './blob/']),
+    "C06-5": ("C06/r3change1", "C06", [('demo/c06_eds_aborted_transfer_demo_test.go', 'share/shwap/p2p/shrex/shrex_getter/c06_eds_aborted_transfer_demo_test.go')],
+              ['./share/shwap/p2p/shrex/'], ['-run', 'TestC06_GetEDS_AbortedTransferDoesNotPoisonHonestPeer', './share/shwap/p2p/shrex/shrex_getter/']),
+    "C08-5": ("C08/r3change1", "C08", [('demo/c08_change1_demo_test.go', 'store/c08_change1_demo_test.go')],
+              ['./store/...'], ['-run', 'TestC08Change1_EmptyBlockRemovalPurgesCache', './store/']),
+    "C08-6": ("C08/r3change2", "C08", [('demo/store/c08_change2_store_demo_test.go', 'store/c08_change2_store_demo_test.go'), ('demo/cache/c08_change2_cache_demo_test.go', 'store/cache/c08_change2_cache_demo_test.go')],
+              ['./store/...'], ['-run', 'TestC08Change2_', './store/', './store/cache/']),
+    "C17-5": ("C17/r3change1", "C17", [('demo/c17_wait_cooldown_demo_test.go', 'share/shwap/p2p/shrex/peers/c17_wait_cooldown_demo_test.go')],
+              ['./share/shwap/p2p/shrex/peers/'], ['-run', 'TestC17', './share/shwap/p2p/shrex/peers/']),
+    "C17-6": ("C17/r3change2", "C17", [('demo/c17_blacklist_nodes_demo_test.go', 'share/shwap/p2p/shrex/peers/c17_blacklist_nodes_demo_test.go')],
+              ['./share/shwap/p2p/shrex/peers/'], ['-run', 'TestC17BlacklistedPeerNeverOfferedAgain', './share/shwap/p2p/shrex/peers/']),
+    "C14-4": ("C14/r3change1", "C14", [('demo/prune_orphan_demo_test.go', 'share/availability/full/prune_orphan_demo_test.go')],
+              ['./share/availability/...', './pruner/...'], ['-run', 'TestDemoPruneRemovesBlockWithoutHeightLink', './share/availability/full/']),
+    "C14-5": ("C14/r3change2", "C14", [('demo/retry_failed_demo_test.go', 'pruner/retry_failed_demo_test.go')],
+              ['./pruner/...', './nodebuilder/pruner/...'], ['-run', 'TestDemo', './pruner/']),
+    "C11-3": ("C11/r3change1", "C11", [('demo/c11_small_signed_blob_test.go', 'blob/c11_small_signed_blob_test.go')],
+              ['./blob/...'], ['-run', 'TestC11SmallSignedBlobBetweenNeighbours', './blob/']),
+    "C11-4": ("C11/r3change2", "C11", [('demo/c11_mixed_version_padding_test.go', 'blob/c11_mixed_version_padding_test.go')],
+              ['./blob/...'], ['-run', 'TestC11MixedShareVersionsAroundPadding', './blob/']),
+    "C05-5": ("C05/r3change1", "C05", [('demo/zz_c05_serving_cache_test.go', 'store/zz_c05_serving_cache_test.go'), ('demo/zz_c05_getorload_evict_test.go', 'store/cache/zz_c05_getorload_evict_test.go')],
+              ['./store/...'], ['-run', 'TestC05', './store/', './store/cache/']),
+    "C05-6": ("C05/r3change2", "C05", [('demo/zz_c05_empty_block_link_test.go', 'store/zz_c05_empty_block_link_test.go')],
+              ['./store/...'], ['-run', 'TestC05EmptyBlock', './store/']),
     "C06-1": ("C06/change1", "C06", [("demo/sample_unverified_demo_test.go", "share/shwap/p2p/bitswap/sample_unverified_demo_test.go")],
               ["./share/shwap/p2p/bitswap/"], ["-run", "TestDemo_GetSamples", "./share/shwap/p2p/bitswap/"]),
     "C06-2": ("C06/change2", "C06", [("demo/eds_retry_demo_test.go", "share/shwap/p2p/shrex/shrex_getter/eds_retry_demo_test.go")],
